@@ -15,10 +15,11 @@ Conventions
   `rng_.uniformInt(lo, hi)` (the harness substitutes exactly this for the simplifier's private `rng_`);
 * indexing is CHECKED: a routine returns `none` as soon as the C++ code would index a vector outside
   `[0, size)` or call `erase(first, last)` with `first > last` or `last > size` (undefined behaviour).
-  The single place where this really happens on the unchanged tree (F9, `ropeShortcutPath` reads
-  `states[j]` after `states.erase(i+1 .. j)`) is modelled by an explicit flag `oob` plus the value the
-  real `std::vector<State*>` yields there (the slot beyond `end()` still holds the old `states[j]`),
-  so that the model can be run in lock-step with the real code; see `ropeInner`.
+  The model follows the tree AFTER the fixes 695c3e72c (F9), f9a435dd6 (F55), 3ab8608d2 (F56).  The
+  code before them is kept as the `…Old` definitions (`fixed = false` of the `…G` functions): for F9
+  (`ropeShortcutPath` read `states[j]` after `states.erase(i+1 .. j)`) the out-of-range read is an
+  explicit flag `oob` plus the value the real `std::vector<State*>` yields there (the slot beyond
+  `end()` still holds the old `states[j]`), so that the old model, too, runs in lock-step with old code.
 * `for (i = 0; i < maxSteps && nochange < maxEmptySteps; ++i, ++nochange)`: the body's `nochange = 0`
   is followed by the loop's `++nochange`, so a successful step continues with `nochange = 1`.
 -/
@@ -193,9 +194,9 @@ inductive JRes (σ : Type) where
   | err
 
 /-- the `for (j = size - 1; j > i + 1; --j)` loop for a fixed `i`; called with `j = size - 1`,
-recursion on `j`.  `fixed = false` is the unchanged tree; `fixed = true` is the repair proposed in
-notes/C17-fix-F9.diff (remember `j == size - 1` before the erase, read `states[i + 1]`). -/
-def ropeInner {γ : Type} (E : RopeEnv σ γ) (fixed : Bool) (st : List σ) (i : Nat) : Nat → JRes σ
+recursion on `j`.  `fixed = true` is the code in the tree (fix 695c3e72c: remember `j == size - 1` before the erase, read
+`states[i + 1]`); `fixed = false` is the code before that fix (F9), see `ropeShortcutPathOld`. -/
+def ropeInnerG {γ : Type} (E : RopeEnv σ γ) (fixed : Bool) (st : List σ) (i : Nat) : Nat → JRes σ
   | 0 => .next
   | j + 1 =>
     if j + 1 ≤ i + 1 then .next
@@ -230,31 +231,41 @@ def ropeInner {γ : Type} (E : RopeEnv σ γ) (fixed : Bool) (st : List σ) (i :
                   let last := if fixed then j + 1 = st.length - 1 else j + 1 = st2.length - 1
                   if last then .ret st2 true stale.2 else .restart st2 stale.2
                 | _, _ => .err
-            else ropeInner E fixed st i j
+            else ropeInnerG E fixed st i j
           | _, _ => .err
-        else ropeInner E fixed st i j
+        else ropeInnerG E fixed st i j
       | _, _ => .err
 
 /-- the outer `for (i = 0; i < size - 2; ++i)` loop; `fuel` bounds the number of `i` iterations
 (the C++ loop restarts at `i = 0` after every shortcut).  Result: path, return value, whether the
 stale read went past `end()`, whether `fuel` ran out. -/
-def ropeOuter {γ : Type} (E : RopeEnv σ γ) (fixed : Bool) : (fuel : Nat) → List σ → (i : Nat) → (res oob : Bool) →
+def ropeOuterG {γ : Type} (E : RopeEnv σ γ) (fixed : Bool) : (fuel : Nat) → List σ → (i : Nat) → (res oob : Bool) →
     Option (List σ × Bool × Bool × Bool)
   | 0, st, _, res, oob => some (st, res, oob, true)
   | fuel + 1, st, i, res, oob =>
     if i + 2 < st.length then
-      match ropeInner E fixed st i (st.length - 1) with
+      match ropeInnerG E fixed st i (st.length - 1) with
       | .ret st' changed o => some (st', res || changed, oob || o, false)
-      | .next => ropeOuter E fixed fuel st (i + 1) res oob
-      | .restart st' o => ropeOuter E fixed fuel st' 0 true (oob || o)
+      | .next => ropeOuterG E fixed fuel st (i + 1) res oob
+      | .restart st' o => ropeOuterG E fixed fuel st' 0 true (oob || o)
       | .err => none
     else some (st, res, oob, false)
 
-/-- `PathSimplifier::ropeShortcutPath(path, delta, equivalenceTolerance)` -/
-def ropeShortcutPath {γ : Type} (E : RopeEnv σ γ) (fixed : Bool) (fuel : Nat) (path : List σ) :
+/-- `PathSimplifier::ropeShortcutPath(path, delta, equivalenceTolerance)`, both variants (`fixed`) -/
+def ropeShortcutPathG {γ : Type} (E : RopeEnv σ γ) (fixed : Bool) (fuel : Nat) (path : List σ) :
     Option (List σ × Bool × Bool × Bool) :=
   if path.length < 3 then some (path, false, false, false)
-  else ropeOuter E fixed fuel (ropeDensify E path) 0 false false
+  else ropeOuterG E fixed fuel (ropeDensify E path) 0 false false
+
+/-- `PathSimplifier::ropeShortcutPath` as it is in the tree (since fix 695c3e72c): the early-return
+test is evaluated before the erase and the distance is read from `states[i + 1]` -/
+def ropeShortcutPath {γ : Type} (E : RopeEnv σ γ) (fuel : Nat) (path : List σ) :
+    Option (List σ × Bool × Bool × Bool) := ropeShortcutPathG E true fuel path
+
+/-- the routine BEFORE that fix (F9): stale `states[j]` / stale `j == size - 1` after the erase.  Kept
+for the witness theorems and for the driver's `old` field (lets the check name a regression). -/
+def ropeShortcutPathOld {γ : Type} (E : RopeEnv σ γ) (fuel : Nat) (path : List σ) :
+    Option (List σ × Bool × Bool × Bool) := ropeShortcutPathG E false fuel path
 
 /-! ## the splice of partialShortcutPath
 
@@ -311,9 +322,10 @@ def walkDown (ds : Array Float) (distTo : Float) : Nat → Nat
   | pos + 1 => if distTo < ds[pos + 1]! then walkDown ds distTo pos else pos + 1
 
 /-- the snap logic shared by both sampled points: returns `(pos, index ≥ 0)`.  `fixed = true` is the
-repair proposed in notes/C17-fix-F1.diff: the snap-to-next test uses `<=`, so a sample that hits a
-vertex exactly (in particular the end of the path) is snapped even with `snapToVertex = 0`. -/
-def psSelect (fixed : Bool) (ds : Array Float) (distTo threshold : Float) : Nat × Bool :=
+code in the tree (fix f9a435dd6, F55): the snap-to-next test uses `<=`, so a sample that hits a vertex
+exactly (in particular the end of the path) is snapped even with `snapToVertex = 0`; `fixed = false`
+is the `<` of the code before. -/
+def psSelectG (fixed : Bool) (ds : Array Float) (distTo threshold : Float) : Nat × Bool :=
   let lb := lowerBound ds.toList distTo
   let pos := if lb = ds.size then ds.size - 1 else lb
   if pos = 0 || (if fixed then ds[pos]! - distTo <= threshold else ds[pos]! - distTo < threshold) then (pos, true)
@@ -332,7 +344,7 @@ def psAlong (dist : σ → σ → Float) (st : Array σ) (acc : Float) (posTemp 
     | some a, some b => psAlong dist st (acc + dist a b) (posTemp + 1) k
     | _, _ => none
 
-def psLoop (E : PsEnv σ) (fixed : Bool) (u : Nat → Float) (rangeRatio snap : Float) (maxEmpty : Nat) :
+def psLoopG (E : PsEnv σ) (fixed : Bool) (u : Nat → Float) (rangeRatio snap : Float) (maxEmpty : Nat) :
     (fuel i nochange : Nat) → List σ → Bool → Option (List σ × Bool)
   | 0, _, _, st, res => some (st, res)
   | fuel + 1, i, nochange, st, res =>
@@ -342,12 +354,12 @@ def psLoop (E : PsEnv σ) (fixed : Bool) (u : Nat → Float) (rangeRatio snap : 
       let threshold := back * snap
       let rd := rangeRatio * back
       let distTo0 := (back - 0.0) * u (2 * i) + 0.0
-      let (pos0, idx0) := psSelect fixed ds distTo0 threshold
+      let (pos0, idx0) := psSelectG fixed ds distTo0 threshold
       let lo1 := fmax 0.0 (distTo0 - rd)
       let hi1 := fmin (distTo0 + rd) back
       let distTo1 := (hi1 - lo1) * u (2 * i + 1) + lo1
-      let (pos1, idx1) := psSelect fixed ds distTo1 threshold
-      if psSkip pos0 idx0 pos1 idx1 then psLoop E fixed u rangeRatio snap maxEmpty fuel (i + 1) (nochange + 1) st res
+      let (pos1, idx1) := psSelectG fixed ds distTo1 threshold
+      if psSkip pos0 idx0 pos1 idx1 then psLoopG E fixed u rangeRatio snap maxEmpty fuel (i + 1) (nochange + 1) st res
       else
         let pt (pos : Nat) (idx : Bool) (distTo : Float) : Option σ :=
           if idx then st[pos]? else
@@ -369,26 +381,46 @@ def psLoop (E : PsEnv σ) (fixed : Bool) (u : Nat → Float) (rangeRatio snap : 
               | some along =>
                 let along := along + c1
                 if along < E.dist s0 s1 then
-                  psLoop E fixed u rangeRatio snap maxEmpty fuel (i + 1) (nochange + 1) st res
+                  psLoopG E fixed u rangeRatio snap maxEmpty fuel (i + 1) (nochange + 1) st res
                 else
                   match psSplice st pos0 idx0 s0 pos1 idx1 s1 with
-                  | some st' => psLoop E fixed u rangeRatio snap maxEmpty fuel (i + 1) 1 st' true
+                  | some st' => psLoopG E fixed u rangeRatio snap maxEmpty fuel (i + 1) 1 st' true
                   | none => none
               | none => none
             | _, _ => none
-          else psLoop E fixed u rangeRatio snap maxEmpty fuel (i + 1) (nochange + 1) st res
+          else psLoopG E fixed u rangeRatio snap maxEmpty fuel (i + 1) (nochange + 1) st res
         | _, _ => none
     else some (st, res)
 
 /-- `PathSimplifier::partialShortcutPath(path, maxSteps, maxEmptySteps, rangeRatio, snapToVertex)`
 with the default (path length) objective -/
-def partialShortcutPath (E : PsEnv σ) (fixed : Bool) (u : Nat → Float) (maxSteps maxEmpty : Nat) (rangeRatio snap : Float)
+def partialShortcutPathG (E : PsEnv σ) (fixed : Bool) (u : Nat → Float) (maxSteps maxEmpty : Nat) (rangeRatio snap : Float)
     (path : List σ) : Option (List σ × Bool) :=
   if path.length < 3 then some (path, false)
   else
     let maxSteps := if maxSteps = 0 then path.length else maxSteps
     let maxEmpty := if maxEmpty = 0 then path.length else maxEmpty
-    psLoop E fixed u rangeRatio snap maxEmpty maxSteps 0 0 path false
+    psLoopG E fixed u rangeRatio snap maxEmpty maxSteps 0 0 path false
+
+/-- `partialShortcutPath` as it is in the tree (since fix f9a435dd6: snap tests use `<=`) -/
+def partialShortcutPath (E : PsEnv σ) (u : Nat → Float) (maxSteps maxEmpty : Nat) (rangeRatio snap : Float)
+    (path : List σ) : Option (List σ × Bool) := partialShortcutPathG E true u maxSteps maxEmpty rangeRatio snap path
+
+/-- before that fix (F55): snap tests with `<` -/
+def partialShortcutPathOld (E : PsEnv σ) (u : Nat → Float) (maxSteps maxEmpty : Nat) (rangeRatio snap : Float)
+    (path : List σ) : Option (List σ × Bool) := partialShortcutPathG E false u maxSteps maxEmpty rangeRatio snap path
+
+/-! ## the return value of simplify
+
+`simplify(path, ptc, atLeastOnce)`: `if (path.getStateCount() < 3) return true;` … the schedule …
+`return path.check();` (since fix 3ab8608d2; before: `return valid || path.check();` with `valid`
+initialised `true` and cleared only by a failed `checkAndRepair`).  `check` is `PathGeometric::check`,
+`inp`/`out` the path before/after the schedule (not modelled). -/
+def simplifyReturn (check : List σ → Bool) (inp out : List σ) : Bool :=
+  if inp.length < 3 then true else check out
+
+def simplifyReturnOld (valid : Bool) (check : List σ → Bool) (inp out : List σ) : Bool :=
+  if inp.length < 3 then true else valid || check out
 
 /-! ## densification (PathGeometric) -/
 
